@@ -105,7 +105,7 @@ func ghostLevelSorted(ll *LevelList, i int) bool {
 //@           return indexof(ll.levels[0].tables.l, seqat(result, q)) < 0 ==> indexof(ll.levels[0].tables.l, seqat(result, p)) < 0 }) })
 //@   loop 0:
 //@     invariant forall(0, len(out_), func(p int) bool { return out_[p] != nil && ghostInRange(out_[p], key) })
-//@     invariant forall(0, idx_, func(j int) bool { return ghostInRange(ll.levels[0].tables.l[j], key) ==> exists(0, len(out_), func(p int) bool { return out_[p] == ll.levels[0].tables.l[j] }) })
+//@     invariant forall(0, idx_, func(j int) bool { return ghostInRange(ll.levels[0].tables.l[j], key) ==> exists(0, len(out_), len(out_)-1, func(p int) bool { return out_[p] == ll.levels[0].tables.l[j] }) })
 //@     invariant forall(0, len(out_), func(p int) bool { return indexof(ll.levels[0].tables.l, out_[p]) >= 0 })
 //@   loop 1:
 //@     invariant forall(0, len(out_), func(p int) bool { return out_[p] != nil && ghostInRange(out_[p], key) })
